@@ -173,6 +173,23 @@ def pKern : P String := do
   P.done
   pure (runShow (init k0) ops 0)
 
+/-- `lincomb a n (w sx sy sz).. | p x y z / l N x y z .. / g H W x y z ..` : LinearKernel(a).linear_combination -/
+def pLinComb : P String := do
+  let a ← P.rat
+  let wss ← P.list (do let w ← P.rat; let s ← P.rep P.rat 3; pure (w, s))
+  bar
+  let t ← P.tok
+  let sig ← (match t with
+    | "p" => do let x ← P.rep P.rat 3; pure (Kern.Signal.pixel x)
+    | "l" => do let xs ← P.list (P.rep P.rat 3); pure (Kern.Signal.list xs)
+    | "g" => do
+      let h ← P.nat; let w ← P.nat
+      let rows ← P.rep (P.rep (P.rep P.rat 3) w) h
+      pure (Kern.Signal.grid rows)
+    | _ => failure : P Kern.Signal)
+  P.done
+  pure (showRats (sig.combine (Kern.linK a) (wss.map (·.1)) (wss.map (·.2))))
+
 /-- `wrap <L> <model>×L | <npix> (label val)..` : HeterogeneousModel with one model per label -/
 def pWrap : P String := do
   let ms ← P.list pModel
@@ -199,6 +216,7 @@ def dispatch : List String → Option String
   | "kern" :: rest => (pKern.run rest).map (·.1)
   | "labelseq" :: rest => (pLabelSeq.run rest).map (·.1)
   | "wrap" :: rest => (pWrap.run rest).map (·.1)
+  | "lincomb" :: rest => (pLinComb.run rest).map (·.1)
   | "resize" :: rest => (pResize.run rest).map (·.1)
   | "run" :: rest => (pRun.run rest).map (·.1)
   | "thr" :: rest => (pThr.run rest).map (·.1)
